@@ -156,6 +156,38 @@ example :
     routeAllowed cfg [r1, r2] = true ∧ routeAllowed cfg [r1] = false ∧ routeAllowed cfg [r2, r1] = false
       ∧ routeAllowed cfg [] = false := by decide
 
+/-- the trader and the allow-list change only through UpdateConfig (which only the admin can send,
+`update_config_sound`): every other successful message — swaps, spends, the three ownership messages, by whatever
+sender — leaves the configuration exactly as it was.  Along any sequence of calls, a route is swappable at some point
+only if the configuration in force at that point lists it, and that configuration is the one the admin's last
+UpdateConfig (or the instantiation) wrote -/
+theorem config_changes_only_by_update (s s' : TState) (env : Env) (info : Info) (m : TExec) (out : List SubMsg)
+    (hm : ∀ t r, m ≠ .updateConfig t r) (h : MW.Treasury.execute s env info m = .ok (s', out)) :
+    s'.config = s.config := by
+  cases m <;> simp only [MW.Treasury.execute] at h
+  case transferOwnership n =>
+    simp only [bind_ok, pure_ok] at h; obtain ⟨o, _, h⟩ := h; cases h; rfl
+  case acceptOwnership =>
+    simp only [bind_ok, pure_ok] at h; obtain ⟨o, _, h⟩ := h; cases h; rfl
+  case revokeOwnershipTransfer =>
+    simp only [bind_ok, pure_ok] at h; obtain ⟨o, _, h⟩ := h; cases h; rfl
+  case spendFunds a r c =>
+    unfold spendFunds at h
+    simp only [bind_ok, ensure_ok] at h
+    obtain ⟨_, _, h⟩ := h
+    split at h <;> simp only [bind_ok, pure_ok] at h
+    · obtain ⟨_, _, h⟩ := h; cases h; rfl
+    · obtain ⟨_, _, _, _, h⟩ := h; cases h; rfl
+  case swapIn r t mo =>
+    unfold swapIn at h
+    simp only [bind_ok, ensure_ok, pure_ok] at h
+    obtain ⟨_, _, _, _, _, _, _, _, h⟩ := h; cases h; rfl
+  case swapOut r t mo =>
+    unfold swapOut at h
+    simp only [bind_ok, ensure_ok, pure_ok] at h
+    obtain ⟨_, _, _, _, _, _, _, _, h⟩ := h; cases h; rfl
+  case updateConfig t r => exact absurd rfl (hm t r)
+
 /-- the treasury's `ExecuteMsg`, `InstantiateMsg`, `SwapRoute` and entry points as the source declares them (tables
 regenerated from /repo on every run) are exactly what the model covers; `TExec` has one constructor per variant -/
 theorem treasury_interface_is_modelled :
